@@ -1,6 +1,6 @@
 (* C02: generated deserializers decode every byte string as the specification prescribes.
    Statements only; proofs in Spec/WireThm*.v, Codec/Refine.v and Codec/RefineDes*.v. *)
-From Verif Require Import Wire WireThm WireThmRt WireThmExt WireThmValid Walker Refine RefineDesBase PrimsOn RefineDes WalkerBound InstancesC InstancesCpp InstancesPy InstancesTyped BulkArrays BulkArraysDes WireThmErr WalkerOpt WalkerOptThm InstancesOpt CppWalker CppWalkerThm CppWalkerInst PyDesWalker PyDesWalkerThm PyDesWalkerInst WalkerXDes RefineDesX WalkerXBound InstancesXDes CppWalkerConsumed InstancesCW.
+From Verif Require Import Wire WireThm WireThmRt WireThmExt WireThmValid Walker Refine RefineDesBase PrimsOn RefineDes WalkerBound InstancesC InstancesCpp InstancesPy InstancesTyped BulkArrays BulkArraysDes WireThmErr WalkerOpt WalkerOptThm InstancesOpt CppWalker CppWalkerThm CppWalkerInst PyDesWalker PyDesWalkerThm PyDesWalkerInst WalkerXDes RefineDesX WalkerXBound InstancesXDes CppWalkerConsumed InstancesCW AlignSets.
 Local Open Scope nat_scope.
 
 (* the reported number of consumed bytes never exceeds the number supplied *)
@@ -318,6 +318,20 @@ Theorem c02_py_shaped_walk_des_refines_from_laws : forall Q sa t bs, pyd_laws Q 
   length bs mod 8 = 0 -> py_walk_des Q sa t bs = res_val (des_spec t bs).
 Proof. exact py_walk_des_refines_on. Qed.
 Print Assumptions c02_py_shaped_walk_des_refines_from_laws.
+
+(* AUDIT 2 (C02 #2): the static alignment analysis behind `offset.is_aligned_at_byte()` / `alignment_prefix` as a Coq abstract
+   interpretation over residue sets (Codec/AlignSets.v) with soundness against the specification's cursor - which the Python-shaped
+   walker's cursor equals: whenever the analysis says "aligned", the actual offset is a multiple of 8, for every input and every
+   array length.  (Not done: building `sa : path -> nat -> bool` of PyDesWalker from `aft` by a path lookup.) *)
+Theorem c02_alignment_analysis_sound : forall t bs v k s r, dec_body t bs = Ok (v, k) -> r mod align t = 0 -> In (r mod 8) s ->
+  In ((r + k) mod 8) (aft t s).
+Proof. exact aft_sound. Qed.
+Print Assumptions c02_alignment_analysis_sound.
+
+Theorem c02_aligned_after_sound : forall t bs v k s r, dec_body t bs = Ok (v, k) -> r mod align t = 0 -> In (r mod 8) s ->
+  rs_aligned (aft t s) = true -> (r + k) mod 8 = 0.
+Proof. exact aligned_after_sound. Qed.
+Print Assumptions c02_aligned_after_sound.
 
 (* (F) ERROR CHARACTERISATION (Spec/WireThmErr.v): a decode fails only with one of the three wire errors; WHICH one is the first
        offending node in decoding order (`first_bad`: a length prefix above its capacity, a union tag >= the number of variants, a
